@@ -333,9 +333,8 @@ def C13_5(ctx, facts):
     def o_send(ev, st, t, site):
         recv = ev._eval_operand(st, site.args[0]) if site.args else None
         hops = 0
-        while recv is not None and recv[0] in ("ref", "refmut", "refval") and hops < 6:
-            recv = st.get(recv[1]) if recv[0] != "refval" else recv[1]
-            hops += 1
+        from core import deref_value
+        recv = deref_value(st, recv)
         l = st.get(LOG) or ("list", ())
         st[LOG] = ("list", l[1] + (("variant", "sent", ((0, recv), (1, st.get(CELL)), (2, ("const", "http2" if "http2" in norm(site.name) else "http1")))),))
         st.pop(t["dest"]["l"], None)
